@@ -50,7 +50,8 @@ def mcseq(model, maxseq, p, **kw):
 PLANS["C04"] = {
     "props": ["C04"], "ops": ["draw"],
     "mc": [mc("C04", geoms("GQuick", "GThorough"), ports({"api": 1, "chars": 6}, {"api": 1, "chars": 2, "bytes": 3}),
-              textlen={"quick": 2, "thorough": 3}, disp=True)],
+              textlen={"quick": 2, "thorough": 3}, disp=True),
+           mc("C04sweep", geoms("GOne", "GSmall"), ports({"api": 1, "chars": 5}, {"api": 1, "chars": 3}), invariants=["WellFormedInv", "Emit"])],
     "gen": [gen("star", 12, 300, focus="C04", steps=40, every=6, per=24), walk("C04", 160, 4000), walk("C04", 80, 2000, port="chars"), walk("C04", 8, 200, geom="large", steps=60)],
     "rule": "MC: every text of length <= 2 (thorough: 3) over {narrow, wide, combining, ZWSP, NUL, DEL, >U+00FF} from filled / sparse / "
             "wide-pair grids x cursor everywhere incl. pending wrap x regions x DECAWM/IRM/LNM; each vector also with display() "
